@@ -535,7 +535,7 @@ impl Scenario for C01 {
             let a = rng.below(nn) as u8;
             let b = ((u64::from(a) + 1 + rng.below(nn - 1)) % nn) as u8;
             let others: Vec<u8> = (0..nn as u8).filter(|x| *x != a && *x != b).collect();
-            let c = if rng.chance(3, 4) { *rng.pick(&others) } else { b };
+            let c = if rng.chance(7, 8) { *rng.pick(&others) } else { b };
             let per_round = 2 * (nn - 1);
             let deliver = |f: &mut Vec<Step>, rng: &mut Rng, rounds: u64| {
                 for _ in 0..rounds * per_round + rng.below(per_round) {
@@ -544,7 +544,7 @@ impl Scenario for C01 {
             };
             let mut f: Vec<Step> = vec![Step::Heal, Step::Timeout { node: a }];
             deliver(&mut f, rng, 2);
-            f.push(Step::ProposeMany { pick: 0, n: rng.range(40, 150) as u16, payload: rng.below(1 << 20) as u32 });
+            f.push(Step::ProposeMany { pick: 0, n: rng.range(40, 170) as u16, payload: rng.below(1 << 20) as u32 });
             for _ in 0..2 {
                 f.push(Step::Heartbeat { pick: 0 });
                 deliver(&mut f, rng, 1);
@@ -555,7 +555,7 @@ impl Scenario for C01 {
             }
             f.push(Step::Timeout { node: b });
             deliver(&mut f, rng, 2);
-            f.push(Step::ProposeMany { pick: 1, n: rng.range(60, 180) as u16, payload: rng.below(1 << 20) as u32 });
+            f.push(Step::ProposeMany { pick: 1, n: rng.range(60, 200) as u16, payload: rng.below(1 << 20) as u32 });
             f.push(Step::ProposeMany { pick: 0, n: rng.range(1, 3) as u16, payload: rng.below(1 << 20) as u32 });
             for _ in 0..3 {
                 f.push(Step::Heartbeat { pick: 1 });
@@ -567,7 +567,7 @@ impl Scenario for C01 {
                 deliver(&mut f, rng, 2);
             }
             f.push(Step::Heal);
-            for _ in 0..rng.range(8, 16) {
+            for _ in 0..rng.range(10, 22) {
                 for pick in 0..2u8 {
                     f.push(Step::Heartbeat { pick });
                 }
